@@ -230,6 +230,17 @@ def _get_unaligned(chk, folder, ff, f, iff):
     sub = [n for n in body if isinstance(n, ast.If) and ff.is_form(n.test, "data_type == objectdictionary.BOOLEAN")]
     ok = len(sub) == 1 and len(sub[0].body) == 1 and src(sub[0].body[0]) == "data_type = objectdictionary.UNSIGNED8"
     chk.check(ok, "R6", f"{site} | BOOLEAN handled as UNSIGNED8", f.loc(iff), "")
+    # the field mask must apply on every path of the unaligned branch: a mask under a further condition leaves the bits above
+    # the field (the neighbouring objects) in the value on the other paths
+    for n in [x for b_ in body for x in ast.walk(b_) if isinstance(x, (ast.AugAssign, ast.Assign))]:
+        v = n.value
+        is_mask = (isinstance(n, ast.AugAssign) and isinstance(n.op, ast.BitAnd) and ff.norm(v, subst=False) == ff.canon(MASK_FORMS[0])) or \
+            (isinstance(n, ast.Assign) and isinstance(v, ast.BinOp) and isinstance(v.op, ast.BitAnd) and ff.canon(MASK_FORMS[0]) in (ff.norm(v.left, subst=False), ff.norm(v.right, subst=False)))
+        if is_mask and not any(n is y for b_ in body for y in [b_]):
+            conds = [(src(e), p) for e, p in ff.facts_at(n) if not any(e is iff.test or src(e) == src(iff.test) for _ in [0])]
+            extra = [c for c in conds if c[0] not in (src(iff.test),)]
+            if extra:
+                chk.bad("R2", f"{site} | field mask on every path", f.loc(n), f"`{src(n)}` runs only under {extra}: on the other paths the bits above the field stay in the value")
     flat = [n for n in body if not isinstance(n, ast.If)]
     env, _ = _forward(flat)
     # find the extracted value: last assignment of `data` before the type split, or inside the int branch
